@@ -46,7 +46,7 @@ def mixed_case(draw):
 
 @st.composite
 def raw_case(draw):
-    cfg = draw(gens.config())
+    cfg = draw(gens.config(flip=True))
     o = gens.opts(max_fields=4, max_depth=1, align_hint=cfg["align"])
     d = draw(gens.definition(o))
     data = draw(st.binary(min_size=0, max_size=40)) + bytes(draw(st.integers(0, 24)))
@@ -251,6 +251,8 @@ def run_case(case, ctx):
         return
     sem = ref["sem"]
     cs = common.load(case)
+    if case["cfg"].get("load_endian"):
+        ctx.count("endian-switched-after-load")
     T = cs.Root
     if mode in ("parsed", "parsed-raw"):
         obj = lib(T, io.BytesIO(ref["data"]))
